@@ -417,6 +417,8 @@ CHECKS = {
                 invariants=INV['C14'] + INV['C03'] + INV['C04'] + INV['C05'] + INV['C06'] + ['Inv_C09_NoWritesWhilePaused'],
                 jobs=lambda tier, seed: [
                     dict(name='differential-c14', shards=5 if tier == 'quick' else 14, driver=['differential', '-profile', 'c14']),
+                    dict(name='package-history', shards=4 if tier == 'quick' else 14,
+                         driver=['package-history', '-n', '24' if tier == 'quick' else '800', '-steps', '8', '-seed', str(seed)]),
                     dict(name='package-collide', shards=4 if tier == 'quick' else 14,
                          driver=['package-walk', '-profile', 'collide', '-mode', 'api', '-n', '40' if tier == 'quick' else '1500', '-steps', '160', '-seed', str(seed)]),
                     dict(name='package-sliced', shards=4 if tier == 'quick' else 14,
